@@ -51,7 +51,7 @@ theorem upRootArrive_isep (P : Params K) (hK : KParams lt P) (t : Nat) (s : St K
     | some r =>
       have hoccR := hok.occ _ (self_mem_flat s.tree.root)
       have hsplit := maybeSplit_isSplit s.tree.order s.tree.nextId hok.even s.tree.root l r hoccR hms
-      have ho4 := hok.order4
+      have ho4 := hok.half_pos
       obtain ⟨rs, ls, sp⟩ := split_ord hsw (by omega) hsplit hord hpar
       have hcomp := fun y' => upRootArrive_split P t s key f y' root l r ls rs hms sp.sml sp.smr
       rw [hK.lt] at hcomp
